@@ -9,7 +9,7 @@ EXPLANATION = (
     "(R-C07-accounting) on every Ok path of every handler that touches the packet-id tables, (slots stored + releases recorded) − (slots freed + releases cleared) equals (inflight increments − decrements) — "
     "paths are enumerated exhaustively per handler (loop-free), closures passed to Option::map are inlined as optional segments; "
     "(R-C07-collision-resolve) every Ok path that frees a packet id for good calls check_collision for that id, and `collision = Some(..)` is assigned only in outgoing_publish on the edge where the slot is occupied; "
-    "(R-C07-gate) the event loop's request branch precondition reads `state.inflight >= limit`, `state.collision.is_some()` and `pending.is_empty()`, and `limit` is the state field next_pkid wraps at "
+    "(R-C07-gate) the event loop's request branch precondition is evaluated as a truth table over (pending empty, window full, collision pending): the branch is enabled exactly when the window is free and no collision is pending — also while carried-over requests are pending; `state.inflight >= limit` uses `>=`, and `limit` is the state field next_pkid wraps at "
     "(or, when that field is written only by MqttState::new, the options field the constructor argument is read from); "
     "(R-C07-pkid) the packet id of outgoing publish/subscribe/unsubscribe comes from next_pkid() (or is a caller-assigned non-zero id), next_pkid is the only writer of last_pkid besides new, "
     "and its wrap-around test by equality is used only against a limit that is never rewritten — otherwise a `last_pkid >= limit` test must guard it. "
@@ -252,6 +252,18 @@ def limit_agreement(ctx, prog, ver, body, rhs):
                      (" (rewritten by %s)" % mutable) if mutable else ""), site=body.fn_loc())
 
 
+def _first_use_block(body, local):
+    for bi, b in enumerate(body.blocks):
+        if b.get("cleanup"):
+            continue
+        for st in b["s"]:
+            if "lhs" in st and st["rv"]["k"] == "use" and op_local(st["rv"]["a"]) == local:
+                return bi
+        if b["t"]["k"] == "switch" and op_local(b["t"]["on"]) == local:
+            return bi
+    raise AnchorMissing("first use of the window flag not found")
+
+
 def gate(ctx, prog, ver):
     rule = "R-C07-gate"
     pre = dict((v[0], v[2]) for v in VERSIONS)[ver]
@@ -305,12 +317,68 @@ def gate(ctx, prog, ver):
             ctx.ok(rule, body.id, "the request branch precondition tests both `inflight >= limit` and `collision.is_some()`")
         else:
             ctx.violation(rule, body.id, "flag unused", "inflight_full / collision is computed but not tested by the request branch precondition: new requests are taken with a full window or an unresolved collision", site=body.fn_loc())
-    # pending.is_empty() read for the precondition
-    ie = [bb for bb, t in body.calls() if callee_path(t).endswith("VecDeque::<T, A>::is_empty") and [x.split(".")[-1] for x in (receiver_fields(body, t) or [])][-1:] == ["pending"]]
-    if ie:
-        ctx.ok(rule, body.id, "precondition reads pending.is_empty()")
-    else:
-        ctx.violation(rule, body.id, "pending not consulted", "the request branch precondition no longer looks at pending.is_empty()", site=body.fn_loc())
+    # truth table of the request branch's precondition over (pending empty, window full, collision pending)
+    if full and coll:
+        ie_calls = [(bb, t) for bb, t in body.calls() if callee_path(t).endswith("VecDeque::<T, A>::is_empty") and [x.split(".")[-1] for x in (receiver_fields(body, t) or [])][-1:] == ["pending"] and not body.is_cleanup(bb)]
+        starts = [(t["t"], t["dest"]["l"]) for bb, t in ie_calls if t.get("t") is not None]
+        if not starts:
+            # the precondition does not look at pending at all: start where the window flag is first consumed
+            starts = []
+        table = {}
+        undecided = None
+        for pend_empty in (True, False):
+            for is_full in (True, False):
+                for is_coll in (True, False):
+                    env = {full[0]: is_full, coll[0]: is_coll}
+                    if starts:
+                        cur, pl = starts[0]
+                        env[pl] = pend_empty
+                    else:
+                        cur = _first_use_block(body, full[0])
+                    disabled = False
+                    for _ in range(200):
+                        blk = body.blocks[cur]
+                        for st in blk["s"]:
+                            if "lhs" not in st or st["lhs"].get("p"):
+                                continue
+                            rv = st["rv"]
+                            if rv["k"] == "use":
+                                k = op_const(rv["a"])
+                                l = op_local(rv["a"])
+                                if k is not None and k.get("v") in (0, 1):
+                                    env[st["lhs"]["l"]] = bool(k["v"])
+                                elif l in env:
+                                    env[st["lhs"]["l"]] = env[l]
+                            elif rv["k"] == "un" and rv["op"] == "Not" and op_local(rv["a"]) in env:
+                                env[st["lhs"]["l"]] = not env[op_local(rv["a"])]
+                            elif rv["k"] == "bin" and rv["op"] == "BitOr" and "u8" in body.local_ty(st["lhs"]["l"]):
+                                disabled = True
+                        t = blk["t"]
+                        if t["k"] in ("goto", "falseedge", "assert", "falseunwind"):
+                            cur = t.get("t") if t["k"] != "goto" else t["t"]
+                        elif t["k"] == "switch":
+                            l = op_local(t["on"])
+                            if l not in env:
+                                undecided = (cur, l)
+                                break
+                            tg = [x for v, x in t["targets"] if v == (1 if env[l] else 0)]
+                            cur = tg[0] if tg else t["otherwise"]
+                        else:
+                            break       # next call: the precondition of the next branch starts
+                    table[(pend_empty, is_full, is_coll)] = not disabled
+        if undecided:
+            ctx.anchor_missing(rule, "select (%s): precondition of the request branch could not be evaluated (switch on an untracked value in bb%d)" % (ver, undecided[0]))
+        else:
+            bad_taken = sorted(k for k, en in table.items() if en and (k[1] or k[2]))
+            bad_idle = sorted(k for k, en in table.items() if not en and not k[1] and not k[2])
+            if bad_taken:
+                ctx.violation(rule, body.id, "requests taken past the flow-control gate",
+                              "the request branch is enabled for (pending empty, window full, collision pending) = %s: while carried-over requests are pending the loop takes requests with a full window or an unresolved collision — "
+                              "`pending` also holds the user requests drained from the channel, and a second colliding publish overwrites the parked one (an accepted publish is lost)" % bad_taken, site=body.fn_loc())
+            elif bad_idle:
+                ctx.violation(rule, body.id, "requests refused with a free window", "the request branch is disabled although the window is free and no collision is pending: %s" % bad_idle, site=body.fn_loc())
+            else:
+                ctx.ok(rule, body.id, "request branch enabled exactly when the window is free and no collision is pending (8-row truth table of the precondition)")
 
 
 def pkid(ctx, prog, ver):
